@@ -990,6 +990,10 @@ def dense_shapes():
         "run of instances with an opening parenthesis for a value": "#%d=POINT(1.,(;\n",
         "run of complex instances without closing parenthesis": "#%d=(A1(2.5)BASE(7;\n",
         "run of instances with unreadable values and delimiters": "#%d=POINT(x,y);\n",
+        # the read gives up on / inside a string literal: a scan for the end of the record that counts apostrophes from
+        # where it starts takes the closing one for an opening one
+        "run of instances whose read gives up on an apostrophe": "#%d=BARE('';\n",
+        "run of instances whose read gives up inside a string": "#%d=POINT('a,b';\n",
         # an aggregate of aggregates is kept as raw text by SCLundefined::STEPread / PushPastImbedAggr
         "run of instances that end inside a nested aggregate": "#%d=KINDS(" + ",".join(KINDS_VALS[:11]) + ",((1,2),(3;\n",
         "run of instances that end after an element of an aggregate of aggregates": "#%d=KINDS(" + ",".join(KINDS_VALS[:11]) + ",((1,2),;\n",
